@@ -68,7 +68,8 @@ class Coupler(ops.Qid):
 
     def _comparison_key(self):
         if self._comp_key is None:
-            self._comp_key = (self._qubit0._comparison_key(), self.qubit1._comparison_key())
+            # class-tagged keys: couplers over qubits of different classes stay comparable
+            self._comp_key = (self._qubit0._cmp_tuple(), self._qubit1._cmp_tuple())
         return self._comp_key
 
     @property
